@@ -54,8 +54,8 @@ func init() {
 		Phases:      phases,
 		Run:         run,
 		Floors: func(t string) map[string]int64 {
-			return map[string]int64{"runs.free": 1000, "runs.perturbed": 300, "runs.forced": 200, "window.forced_observed": 100, "window.handshake_runs": 100, "doc.tiny": 30, "doc.negative_ids": 20, "doc.ids_beyond_2^40": 20, "keep.tags": 100, "keep.bounds": 100, "keep.all": 100,
-				"order.shuffled": 20, "order.ways_first": 10, "order.reverse_cascade": 10, "doc.cascade": 30, "doc.relation_cycle": 10, "doc.dangling": 3, "filter.checked": 100, "gomaxprocs.16": 50, "format.pbf": 300, "format.xml": 1000}
+			return map[string]int64{"runs.free": 1000, "runs.perturbed": 300, "runs.forced": 200, "window.forced_observed": 100, "window.handshake_runs": 100, "doc.tiny": 8, "doc.negative_ids": 8, "doc.ids_beyond_2^40": 8, "keep.tags": 100, "keep.bounds": 100, "keep.all": 100,
+				"order.shuffled": 8, "order.ways_first": 3, "order.reverse_cascade": 3, "doc.cascade": 20, "doc.relation_cycle": 5, "doc.dangling": 1, "filter.checked": 100, "gomaxprocs.16": 50, "format.pbf": 300, "format.xml": 1000}
 		},
 	})
 }
